@@ -25,7 +25,7 @@ func init() {
 			"on error / unknown-dedicated results.",
 		NotCovered: "parsing of identifiers from TLS server names, URL paths, userinfo and EDNS options (string work); " +
 			"the profile database's own lookups (C14); the password-hash comparison itself.",
-		Rules: map[string]string{"C03-RC": "class rules (error chains, shadowed results, character classes, crossed arguments, pool constructors, array pools, loop completeness, loop-carried buffers, replacing setters, complete clones, Grow arithmetic, pooled-buffer escape, sorted searches, fresh decode targets, per-iteration objects, whole-message copies, codec guards) over the packages this property rests on", "C03-R15": "matchDomain: lower-cased name, the library's immediate-subdomain test against every device domain, first match wins", "C03-R14": "auth settings are dropped by the file-cache codec only when absent or disabled; setProfiles stores deleted profiles over the live record (shared rules)", "C03-R13": "per-element objects built in conversion loops (server groups, devices) take no slice accumulated over earlier elements",
+		Rules: map[string]string{"C03-R16": "CreateAutoDevice asks the storage only for an existing profile with automatic devices enabled", "C03-RC": "class rules (error chains, shadowed results, character classes, crossed arguments, pool constructors, array pools, loop completeness, loop-carried buffers, replacing setters, complete clones, Grow arithmetic, pooled-buffer escape, sorted searches, fresh decode targets, per-iteration objects, whole-message copies, codec guards) over the packages this property rests on", "C03-R15": "matchDomain: lower-cased name, the library's immediate-subdomain test against every device domain, first match wins", "C03-R14": "auth settings are dropped by the file-cache codec only when absent or disabled; setProfiles stores deleted profiles over the live record (shared rules)", "C03-R13": "per-element objects built in conversion loops (server groups, devices) take no slice accumulated over earlier elements",
 			"C03-R1":  "decision tree of Find equals the reference (channel precedence, deleted profile, authentication table)",
 			"C03-R2":  "supportsDeviceID table",
 			"C03-R3":  "who may construct *agd.DeviceResultOK",
@@ -46,6 +46,7 @@ func init() {
 const dfPkg = "dnssvc/internal/devicefinder."
 
 func runC03(c *an.Ctx) {
+	c03CreateAutoDevice(c)
 	classSweep(c, "C03")
 	c03MatchDomain(c)
 	// ---- R14: authentication settings survive the file cache (nil only when absent or disabled); a deleted profile
@@ -1013,6 +1014,41 @@ func c03MatchDomain(c *an.Ctx) {
 			}
 			if o.RetString() != want {
 				return want + " (the first device domain of which the lower-cased name is an immediate subdomain, by the library's label-aware test); got " + o.RetString()
+			}
+			return ""
+		},
+	})
+}
+
+
+// c03CreateAutoDevice: an automatic device is created (the storage is asked)
+// only for a profile that exists and has the feature enabled.
+func c03CreateAutoDevice(c *an.Ctx) {
+	c.Floor("C03-R16", 1)
+	decide(c, "C03-R16", "profiledb.(*Default).CreateAutoDevice", an.DecideCfg{
+		Dom: an.Domain{"p0.profiles[p2]#ok": an.Bools, "p0.profiles[p2]": {an.NonNil("prof")}, "prof.AutoDevicesEnabled": an.Bools, "storerr": an.Bools},
+		Inline: func(f *ssa.Function) bool { return strings.Contains(an.FnKey(f), "CreateAutoDevice$") },
+		OnCall: func(it *an.Interp, name string, args []an.AV) (an.AV, bool) {
+			switch {
+			case name == "p0.storage.CreateAutoDevice":
+				if it.Feature("storerr").IsTrue() {
+					return an.AV{Kind: an.KTuple, Tup: []an.AV{an.Nil(), an.NonNil("storErr")}}, true
+				}
+				return an.AV{Kind: an.KTuple, Tup: []an.AV{an.NonNil("resp"), an.Nil()}}, true
+			case strings.HasSuffix(name, ").setDevices"):
+				return an.Nil(), true
+			}
+			return an.AV{}, false
+		},
+		Expect: func(f an.Features, o an.AOutcome) string {
+			asked := o.HasCall("p0.storage.CreateAutoDevice")
+			allowed := f.B("p0.profiles[p2]#ok") && f.B("prof.AutoDevicesEnabled")
+			if asked != allowed {
+				return fmt.Sprintf("storage asked=%v (only for an existing profile with automatic devices enabled)", allowed)
+			}
+			ok := allowed && !f.B("storerr")
+			if len(o.Ret) != 3 || ok != (o.Ret[2].Kind == an.KNil) {
+				return fmt.Sprintf("success=%v; got %s", ok, o.RetString())
 			}
 			return ""
 		},
